@@ -25,6 +25,24 @@ class Engine:
             self._summaries = Summaries(self)
         return self._summaries
 
+    def resolution(self) -> dict:
+        """call-resolution rate of the annotation-driven typer over the whole package (vacuity guard, DESIGN 2.2)"""
+        import ast as _ast
+
+        from .db import own_nodes
+
+        tot = res = 0
+        for fn in self.db.all_functions():
+            for n in own_nodes(fn.node):
+                if isinstance(n, _ast.Call):
+                    tot += 1
+                    try:
+                        if self.typer.call_targets(fn, n):
+                            res += 1
+                    except RecursionError:
+                        pass
+        return {"call_sites": tot, "resolved": res, "rate": round(res / max(tot, 1), 4)}
+
     def stats(self) -> dict:
         return {
             "repo": self.db.repo,
